@@ -634,3 +634,163 @@ pub fn c08_periodic_fixed_faults(seed: u64) -> Phase {
         wall_cap_s: 0,
     }
 }
+
+/// Several tracks of the fixed pattern changed TOGETHER: for every region, every pair of its four tracks with
+/// each of them inverted whole or without its end modules; and for every region row / region column the whole
+/// "clock system" (the clock line plus the clock segments of all regions on it, whole or interiors) inverted.
+/// A parser that checks the clock tracks only against each other (a lost phase anchor) accepts these.
+pub fn c08_track_combinations(seed: u64) -> Phase {
+    // per size: regions * 6 pairs * 4 op combinations + (reg_rows + reg_cols) * 4 composites
+    let mut table: Vec<(usize, u64)> = Vec::new();
+    let mut total = 0u64;
+    for s in 0..N_SIZES {
+        let si = &SIZES[s];
+        table.push((s, total));
+        total += (si.reg_rows * si.reg_cols) as u64 * 24 + (si.reg_rows + si.reg_cols) as u64 * 4;
+    }
+    let make = move |_ctx: &Ctx, i: u64| -> Trace {
+        let k = match table.binary_search_by(|e| e.1.cmp(&i)) {
+            Ok(k) => k,
+            Err(k) => k - 1,
+        };
+        let (s, first) = table[k];
+        let si = &SIZES[s];
+        let (h, w) = (si.rows, si.cols);
+        let rh = h / si.reg_rows;
+        let rw = w / si.reg_cols;
+        let r = i - first;
+        let n_reg = (si.reg_rows * si.reg_cols) as u64;
+        let track = |rr: usize, rc: usize, which: usize| -> Vec<u32> {
+            let r0 = rr * rh;
+            let c0 = rc * rw;
+            match which {
+                0 => (0..rw).map(|c| (r0 * w + c0 + c) as u32).collect(),              // top clock row
+                1 => (0..rh).map(|q| ((r0 + q) * w + c0 + rw - 1) as u32).collect(),  // right clock column
+                2 => (0..rw).map(|c| ((r0 + rh - 1) * w + c0 + c) as u32).collect(),  // bottom solid row
+                _ => (0..rh).map(|q| ((r0 + q) * w + c0) as u32).collect(),           // left solid column
+            }
+        };
+        let mut flips: Vec<u32> = Vec::new();
+        let mut add = |t: Vec<u32>, interior: bool, flips: &mut Vec<u32>| {
+            let sl = if interior && t.len() > 2 { &t[1..t.len() - 1] } else { &t[..] };
+            for p in sl {
+                if let Some(pos) = flips.iter().position(|q| q == p) {
+                    flips.remove(pos); // flipped twice = unchanged
+                } else {
+                    flips.push(*p);
+                }
+            }
+        };
+        if r < n_reg * 24 {
+            let reg = (r / 24) as usize;
+            let v = r % 24;
+            let pair = [(0usize, 1usize), (0, 2), (0, 3), (1, 2), (1, 3), (2, 3)][(v / 4) as usize];
+            let (ia, ib) = ((v % 4) / 2 == 1, v % 2 == 1);
+            let (rr, rc) = (reg / si.reg_cols, reg % si.reg_cols);
+            add(track(rr, rc, pair.0), ia, &mut flips);
+            add(track(rr, rc, pair.1), ib, &mut flips);
+        } else {
+            let q = r - n_reg * 24;
+            let line = (q / 4) as usize;
+            let v = q % 4;
+            if line < si.reg_rows {
+                // the clock system of a region row: its top clock line + the right clock segments of its regions
+                let rr = line;
+                for rc in 0..si.reg_cols {
+                    add(track(rr, rc, 0), false, &mut flips);
+                }
+                if v % 2 == 1 {
+                    // without the two ends of the line
+                    let a = (rr * rh * w) as u32;
+                    let b = (rr * rh * w + w - 1) as u32;
+                    for e in [a, b] {
+                        if let Some(pos) = flips.iter().position(|x| *x == e) {
+                            flips.remove(pos);
+                        }
+                    }
+                }
+                for rc in 0..si.reg_cols {
+                    add(track(rr, rc, 1), v / 2 == 0, &mut flips);
+                }
+            } else {
+                // the clock system of a region column: its right clock line + the top clock segments of its regions
+                let rc = line - si.reg_rows;
+                for rr in 0..si.reg_rows {
+                    add(track(rr, rc, 1), false, &mut flips);
+                }
+                for rr in 0..si.reg_rows {
+                    add(track(rr, rc, 0), v / 2 == 0, &mut flips);
+                }
+                if v % 2 == 1 {
+                    // and the top line of the whole symbol as well
+                    for c in 0..w {
+                        let p = c as u32;
+                        if let Some(pos) = flips.iter().position(|x| *x == p) {
+                            flips.remove(pos);
+                        } else {
+                            flips.push(p);
+                        }
+                    }
+                }
+            }
+        }
+        let faults = flips.into_iter().map(|p| Fault::new("fix_track", Op::PxFlip { idx: p })).collect();
+        Trace { prop: "C08".into(), producer: Producer::Raw { size: s, data: seeded_data(seed, s, r % 3) }, faults }
+    };
+    Phase {
+        source: Source::Sweep { name: "sweep_track_combinations_and_clock_systems".into(), prop: "C08".into(), make: Box::new(make) },
+        runs: total,
+        wall_cap_s: 0,
+    }
+}
+
+/// Streams long enough for position-dependent arithmetic (the 253/255-state un-scrambling multiplies the
+/// stream position by 149) to cross 2^31 and 2^32: a run of ASCII followed by a pad / a Base256 run.
+pub fn c05_huge_positions() -> Phase {
+    const LENS: [usize; 3] = [14_412_700, 16_777_300, 28_825_300];
+    let total = LENS.len() as u64 * 2;
+    let make = move |_ctx: &Ctx, i: u64| -> Trace {
+        let n = LENS[(i / 2) as usize];
+        let mut data = vec![66u8; n];
+        if i % 2 == 0 {
+            data.extend_from_slice(&[129, 200, 17]);
+        } else {
+            data.extend_from_slice(&[231, 7, 1, 2, 3, 4, 5, 6, 7, 8]);
+        }
+        Trace { prop: "C05".into(), producer: Producer::Stream { data }, faults: vec![] }
+    };
+    Phase {
+        source: Source::Sweep { name: "sweep_stream_positions_beyond_2_pow_31_over_149".into(), prop: "C05".into(), make: Box::new(make) },
+        runs: total,
+        wall_cap_s: 0,
+    }
+}
+
+/// C40 / Text / X12: every sequence of six values (two pairs) over the values that change the decoder's state
+/// or sit at the edge of a table {0,1,2,3,27,30,31,32,39}, behind each of the three latches.
+pub fn c05_c40_value_sequences() -> Phase {
+    const V: [u16; 9] = [0, 1, 2, 3, 27, 30, 31, 32, 39];
+    const N: u64 = 9 * 9 * 9 * 9 * 9 * 9;
+    let total = N * 3;
+    let make = move |_ctx: &Ctx, i: u64| -> Trace {
+        let latch = [230u8, 239, 238][(i / N) as usize];
+        let mut r = i % N;
+        let mut vals = [0u16; 6];
+        for v in vals.iter_mut() {
+            *v = V[(r % 9) as usize];
+            r /= 9;
+        }
+        let mut data = vec![latch];
+        for p in 0..2 {
+            let x = 1600 * vals[3 * p] + 40 * vals[3 * p + 1] + vals[3 * p + 2] + 1;
+            data.push((x >> 8) as u8);
+            data.push((x & 0xFF) as u8);
+        }
+        Trace { prop: "C05".into(), producer: Producer::Stream { data }, faults: vec![] }
+    };
+    Phase {
+        source: Source::Sweep { name: "sweep_c40_text_x12_value_sequences".into(), prop: "C05".into(), make: Box::new(make) },
+        runs: total,
+        wall_cap_s: 0,
+    }
+}
